@@ -471,10 +471,13 @@ fn judge_c06(env: &Env, case: &Case, out: &Outcome, fails: &mut Vec<Failure>, la
         for (i, ls) in &leftover_of_spec {
             let s = &b.specs[*i];
             let sr = &r.specs[*i];
-            if sr.spawn_errno != 0 {
-                continue; // failed creation: outside this property's quantifier
-            }
             let sizes: Vec<u64> = ls.iter().map(|l| l.size).collect();
+            if sr.spawn_errno != 0 {
+                // the thread never came to be: everything spawn had set up for it (join state, thread-local
+                // block, the boxed closure) has no other owner and is released by spawn's error path
+                fails.push(f("spawn failure|block allocated by the failed spawn call never freed|heap", format!("{on}: spec {i} ({}): spawn returned an error (errno {}), blocks of sizes {sizes:?} allocated inside that call are still live afterwards (thread-local block is 40 bytes, join state >= 32 bytes)", spec_text(s), sr.spawn_errno)));
+                continue;
+            }
             if !s.panic {
                 fails.push(f(format!("thread exit|block allocated by spawn never freed|{} {}", if s.panic { "panic" } else { "return" }, DISP_NAMES[s.disp.min(4) as usize]), format!("{on}: spec {i} ({}): blocks of sizes {sizes:?} allocated inside its spawn call are still live after the thread is gone (thread-local block is 40 bytes, join state >= 32 bytes)", spec_text(s))));
             } else if ls.len() > 1 || ls[0].size > sr.closure_size as u64 + 16 {
@@ -619,17 +622,32 @@ fn judge_c06(env: &Env, case: &Case, out: &Outcome, fails: &mut Vec<Failure>, la
     }
     // the main thread (and any thread) must not unmap the stack of a thread it does not own
     if let Some(evs) = log.per_tid.get(&main_tid) {
+        // mappings the main thread owns at this point of its own call sequence: what it mapped and has not handed
+        // to a thread - a stack mapped for a clone that then FAILED stays the main thread's to unmap
         let mut own_maps: Vec<(u64, u64)> = Vec::new();
+        let mut pending_stack: Option<(u64, u64)> = None;
         for e in evs {
             if e.name == "mmap" {
                 if let (Some(a), Some(l)) = (e.ret_num(), e.pos_num(1)) {
-                    if a > 0 && !th.stack_maps.iter().any(|(t, sa, _)| *t == main_tid && *sa == a as u64 && l == strace::STACK_SZ) {
+                    if a > 0 && strace::is_stack_shaped(e) {
+                        pending_stack = Some((a as u64, l));
+                    } else if a > 0 {
                         own_maps.push((a as u64, l));
                     }
                 }
+            } else if e.name == "clone" || e.name == "clone3" {
+                match (e.ret_num(), pending_stack.take()) {
+                    (Some(r), Some(_)) if r > 0 => {} // now the new thread's
+                    (_, Some(p)) => own_maps.push(p),
+                    _ => {}
+                }
             } else if e.name == "munmap" {
                 let (Some(a), Some(l)) = (e.pos_num(0), e.pos_num(1)) else { continue };
-                let explained = own_maps.iter().any(|(ma, ml)| a >= *ma && a + l <= *ma + *ml);
+                if let Some(k) = own_maps.iter().position(|(ma, ml)| a == *ma && l == *ml) {
+                    own_maps.swap_remove(k); // gone: a later mapping at the same address is a different one
+                    continue;
+                }
+                let explained = own_maps.iter().any(|(ma, ml)| a >= *ma && a + l <= *ma + *ml) || pending_stack.is_some_and(|(ma, ml)| a >= ma && a + l <= ma + ml);
                 if !explained && stack_ranges.iter().any(|r| overlaps(a, l, *r)) {
                     fails.push(f("main thread|unmapped a spawned thread's stack|", format!("on {}: main thread called munmap({a:#x}, {l}) overlapping a thread stack", case.build)));
                 }
@@ -680,9 +698,7 @@ fn run_case(env: &Env, case: &Case) -> CaseResult {
     let judge = judge_end(env, case, &out, injected, &mut fails, &mut rep);
     if judge {
         if env.c06 {
-            if case.fault.is_none() {
-                judge_c06(env, case, &out, &mut fails, &mut late, &mut rep);
-            }
+            judge_c06(env, case, &out, &mut fails, &mut late, &mut rep);
         } else {
             judge_c05(env, case, &out, injected, &mut fails, &mut rep);
         }
@@ -1029,42 +1045,44 @@ pub fn run(ctx: &Ctx) {
         env.shrinking.set(false);
         ctx.run_prop_opts("join-strace", ctx.cases(12, 100), 60, case_strategy(false, builds.clone(), true, 2), |c| env.attempt(c));
         env.shrinking.set(false);
-        // complete fault enumeration on the fixed batches: every stack mmap, every clone (x EAGAIN, ENOMEM)
-        if let Some(case) = ctx.replay_case::<Case>("fault") {
-            ctx.run_one("fault", &case, || env.attempt(&case));
-        } else if let Some(case) = ctx.replay_case::<Case>("fault-min") {
-            ctx.run_one("fault-min", &case, || env.attempt(&case));
-        } else if !ctx.is_replay() {
-            let fixed = fixed_batches();
-            let mut all = Vec::new();
-            for build in &builds {
-                for b in &fixed {
-                    for idx in 0..b.specs.len() as u32 {
-                        for (t, e) in [("clone", "EAGAIN"), ("clone", "ENOMEM"), ("stack-mmap", "ENOMEM")] {
-                            all.push(Case { build: build.to_string(), strace: true, fault: Some(Fault { target: t.into(), index: idx, errno: e.into() }), batches: vec![b.clone()] });
-                        }
-                    }
-                }
-            }
-            let mut complete = true;
-            for (k, case) in all.iter().enumerate() {
-                if k as u32 % ctx.nworkers != ctx.worker {
-                    continue;
-                }
-                // the one-thread batch is its own sub-check so that its replay file is the minimal one
-                let name = if case.batches[0].specs.len() == 1 { "fault-min" } else { "fault" };
-                if !ctx.run_one(name, case, || run_case(&env, case)) {
-                    complete = false;
-                    break;
-                }
-            }
-            if complete {
-                ctx.note_exhaustive(format!("every stack mmap and every clone (EAGAIN, ENOMEM) of 4 fixed batches (1, 4, 6, 8 threads) x {} builds failed once by strace injection: {} cases", builds.len(), all.len()));
-            }
-        }
         if ctx.thorough() {
             ctx.run_prop_opts("fault-rand", ctx.cases(0, 60), 60, fault_case_strategy(builds.clone()), |c| env.attempt(c));
         env.shrinking.set(false);
+        }
+    }
+    // complete fault enumeration on the fixed batches: every stack mmap, every clone (x EAGAIN, ENOMEM); judged for
+    // both properties (C05: spawn reports the error, the other threads are unaffected; C06: what spawn had set up
+    // for the thread that never came to be is released, exactly once)
+    if let Some(case) = ctx.replay_case::<Case>("fault") {
+        ctx.run_one("fault", &case, || env.attempt(&case));
+    } else if let Some(case) = ctx.replay_case::<Case>("fault-min") {
+        ctx.run_one("fault-min", &case, || env.attempt(&case));
+    } else if !ctx.is_replay() {
+        let fixed = fixed_batches();
+        let mut all = Vec::new();
+        for build in &builds {
+            for b in &fixed {
+                for idx in 0..b.specs.len() as u32 {
+                    for (t, e) in [("clone", "EAGAIN"), ("clone", "ENOMEM"), ("stack-mmap", "ENOMEM")] {
+                        all.push(Case { build: build.to_string(), strace: true, fault: Some(Fault { target: t.into(), index: idx, errno: e.into() }), batches: vec![b.clone()] });
+                    }
+                }
+            }
+        }
+        let mut complete = true;
+        for (k, case) in all.iter().enumerate() {
+            if k as u32 % ctx.nworkers != ctx.worker {
+                continue;
+            }
+            // the one-thread batch is its own sub-check so that its replay file is the minimal one
+            let name = if case.batches[0].specs.len() == 1 { "fault-min" } else { "fault" };
+            if !ctx.run_one(name, case, || run_case(&env, case)) {
+                complete = false;
+                break;
+            }
+        }
+        if complete {
+            ctx.note_exhaustive(format!("every stack mmap and every clone (EAGAIN, ENOMEM) of 4 fixed batches (1, 4, 6, 8 threads) x {} builds failed once by strace injection: {} cases", builds.len(), all.len()));
         }
     }
     ctx.extra("threads_created", serde_json::json!(env.threads.get()));
